@@ -138,9 +138,14 @@ func runPolyPkg(c *mon.Ctx, P *iops.PolyPkg, race bool) {
 	case race:
 		ns = []int{1, 2, 3, 9, 30, 31}
 	case T:
-		for n := 1; n <= 255; n++ {
+		// (the library caches the Lagrange basis of every size ever used: n^2 elements each, never released)
+		for n := 1; n <= 72; n++ {
 			ns = append(ns, n)
 		}
+		for n := 80; n <= 248; n += 8 {
+			ns = append(ns, n-1, n, n+1)
+		}
+		ns = append(ns, 253, 254, 255)
 	default:
 		for n := 1; n <= 34; n++ {
 			ns = append(ns, n)
@@ -161,7 +166,7 @@ func runPolyPkg(c *mon.Ctx, P *iops.PolyPkg, race bool) {
 			cst[i] = k
 		}
 		jobs = append(jobs, job{n, cst, "constant"})
-		if n <= 40 || T {
+		if n <= 40 || T && n <= 72 {
 			// values of a polynomial of lower degree
 			lo := rv(1 + rng.Intn(n))
 			vals := make([]*big.Int, n)
